@@ -94,7 +94,7 @@ func TestC19Binary(t *testing.T) {
 		defer cancel()
 		conn, _, err := websocket.DefaultDialer.Dial("ws://"+target+":"+port+"/", nil)
 		if err != nil {
-			rt.Fatalf("dial %s: %v", target, err)
+			rt.Fatalf("[setup failed] dial %s: %v", target, err)
 		}
 		codec := &wsTestCodec{conn: conn}
 		svc := &HostSvc{}
